@@ -57,7 +57,13 @@ def const_of(ty):
 
 def children_paths(n, path=()):
     """yield (path, node) for every recipe node (tuples whose first element is a str tag)"""
-    if isinstance(n, tuple) and n and isinstance(n[0], str):
+    if isinstance(n, tuple) and n and n[0] == "itxn":
+        # ("itxn", [[(field name, expr) ...] ...]): the (name, expr) pairs are not recipe nodes
+        yield path, n
+        for gi, fs in enumerate(n[1]):
+            for fi, (_f, e) in enumerate(fs):
+                yield from children_paths(e, path + (1, gi, fi, 1))
+    elif isinstance(n, tuple) and n and isinstance(n[0], str):
         yield path, n
         for i, x in enumerate(n):
             if i == 0:
